@@ -1210,6 +1210,16 @@ func (io *c20SignalIO) signal() {
 	io.mu.Unlock()
 }
 
+// ot.Pipe is unbuffered: a receiver that speaks first (COT: the IKNP columns)
+// blocks in its first write until its sender reads, so a write counts as
+// "waiting for the sender" as well.
+func (io *c20SignalIO) SendData(val []byte) error { io.signal(); return io.Pipe.SendData(val) }
+func (io *c20SignalIO) SendByte(val byte) error   { io.signal(); return io.Pipe.SendByte(val) }
+func (io *c20SignalIO) SendUint32(val int) error  { io.signal(); return io.Pipe.SendUint32(val) }
+func (io *c20SignalIO) SendLabel(val ot.Label, data *ot.LabelData) error {
+	io.signal()
+	return io.Pipe.SendLabel(val, data)
+}
 func (io *c20SignalIO) ReceiveByte() (byte, error)   { io.signal(); return io.Pipe.ReceiveByte() }
 func (io *c20SignalIO) ReceiveUint32() (int, error)  { io.signal(); return io.Pipe.ReceiveUint32() }
 func (io *c20SignalIO) ReceiveData() ([]byte, error) { io.signal(); return io.Pipe.ReceiveData() }
@@ -1217,6 +1227,10 @@ func (io *c20SignalIO) ReceiveLabel(val *ot.Label, data *ot.LabelData) error {
 	io.signal()
 	return io.Pipe.ReceiveLabel(val, data)
 }
+
+// c20WaitTimeouts counts forced-waiting steps where the receiver never
+// reported waiting (reported as a note; the pair then runs unforced).
+var c20WaitTimeouts int
 
 type c20ConcSession struct {
 	snd, rcv ot.OT
@@ -1272,6 +1286,7 @@ func c20ConcPair(c *Ctx, over string, s1, s2 *c20ConcSession, fxk bool, a uint, 
 		select {
 		case <-w:
 		case <-time.After(2 * time.Second):
+			c20WaitTimeouts++
 		}
 	}
 	c1, c2 := make(chan c20ConcRes, 1), make(chan c20ConcRes, 1)
@@ -1775,6 +1790,6 @@ func runC20(c *Ctx) error {
 			return err
 		}
 	}
-	c.Note("concurrent gadget sessions: %.1fs", time.Since(t2).Seconds())
+	c.Note("concurrent gadget sessions: %.1fs, %d forced waits timed out", time.Since(t2).Seconds(), c20WaitTimeouts)
 	return nil
 }
